@@ -52,7 +52,7 @@ def scenarios(pid, tier, seed):
 
 
 def signature(v, sc):
-    return "%s/win-%s" % (v, "".join(c[0] for c in sc["piped"]) or "none")
+    return "%s/%s-%s" % (v, "unix-real" if sc.get("impl") == "unix" else "win", "".join(c[0] for c in sc["piped"]) or "none")
 
 
 def run(pid, tier, seed, findings, prefix, replay_scenario=None):
@@ -67,7 +67,11 @@ def run(pid, tier, seed, findings, prefix, replay_scenario=None):
             r = tlc_mc("MCCommWin.tla", cfg, "%s_%s" % (pid, cfg[:-4]), workers=8)
             mc.append({k: r[k] for k in ("cfg", "states", "distinct", "ok", "error", "wall_s")})
             log("[mc] %s: %d distinct states, ok=%s (%.1fs)" % (cfg, r["distinct"], r["ok"], r["wall_s"]))
-        scs = scenarios(pid, tier, seed)
+        win = scenarios(pid, tier, seed)
+        # the same scenarios for the library's own (poll()-based) communicator: real pipes instead of the simulated
+        # kernel of the comm engine (Linux's page-slot pipe buffers, real SIGPIPE/EPIPE, real poll)
+        scs = win + [dict(s, id="u" + s["id"], impl="unix", calls=[{k: v for k, v in c.items() if k != "hold_us"} for c in s["calls"]])
+                     for s in win]
     else:
         scs = [replay_scenario]
     wd = workdir("commwin_" + pid)
@@ -111,7 +115,8 @@ def run(pid, tier, seed, findings, prefix, replay_scenario=None):
             seen.add(sig)
             path = save_replay(pid, {"property": pid, "monitor": v, "signature": sig, "engine": "commwin",
                                      "scenario": sc, "trace": [json.loads(x) for x in b][:300]})
-            new.append(("%s fired in exchange %s of the thread-based communicator (%s)" % (v, res["id"], sig), path))
+            which = "poll()-based communicator on real pipes" if sc.get("impl") == "unix" else "thread-based communicator"
+            new.append(("%s fired in exchange %s of the %s (%s)" % (v, res["id"], which, sig), path))
     info = {"exchanges": len(results), "nontrivial": len(nontrivial), "trace_validation_states": tv_states,
             "replay_note": note,
             "sample": [json.loads(x) for x in blocks[0][:8]] if blocks else []}
